@@ -77,6 +77,7 @@ type PanicRec struct {
 
 // Sched is one run's scheduler state.
 type Sched struct {
+	freeA    atomic.Bool // lock-free copy of free
 	Seed     uint64
 	tasks    map[uint64]*Task // by goroutine id
 	byName   map[string]*Task
@@ -378,7 +379,7 @@ func (s *Sched) park(t *Task, kind, site string, nalt int, enabled func() bool, 
 // Yield is an unconditional scheduling point.
 func Yield(site string) {
 	s := cur.Load()
-	if s == nil {
+	if s == nil || s.freeA.Load() {
 		return
 	}
 	t := s.self(site)
@@ -388,7 +389,7 @@ func Yield(site string) {
 // YieldKind is a scheduling point with a kind label (used by shims).
 func YieldKind(kind, site string) {
 	s := cur.Load()
-	if s == nil {
+	if s == nil || s.freeA.Load() {
 		return
 	}
 	t := s.self(site)
@@ -406,6 +407,22 @@ func Gate(site string, enabled func() bool) (free bool) {
 	}
 	t := s.self(site)
 	g := s.park(t, "gate", site, 0, enabled, nil)
+	if g.free {
+		// free mode: nobody schedules; wait for the condition by polling on the (fake) clock
+		d := time.Microsecond
+		for {
+			mu.Lock()
+			ok := enabled()
+			mu.Unlock()
+			if ok || Dead() || cur.Load() != s {
+				break
+			}
+			time.Sleep(d)
+			if d < 10*time.Millisecond {
+				d *= 2
+			}
+		}
+	}
 	return g.free
 }
 
@@ -523,6 +540,7 @@ func (s *Sched) Release(t *Task, aux uint64) {
 func (s *Sched) FreeRun() {
 	mu.Lock()
 	s.free = true
+	s.freeA.Store(true)
 	var rel []*Task
 	for _, t := range s.all {
 		if t.parked && !t.exited {
